@@ -432,3 +432,15 @@ package process
 //@   callsite C06.cutCallProvider process.checkExplicitPolarityValidity#1: indepOneOK && indepOneLeft == functionSignatureType && indepOneRight == providerType
 //@   callsite C06.cutCtx process.Form.typecheckForm#3: indepOK && indepSucc == p.new_name_c.Type && coversCtx(indepAnte, gammaLeftNameTypesCtx) && arg3 == p.new_name_c.Type
 //@   callsite C06.cutProvider process.Form.typecheckForm#3: indepOneOK && indepOneLeft == p.new_name_c.Type && indepOneRight == providerType
+
+// C10 at the cut: the type annotation of the spawned channel, as written, is checked for well-formedness.
+//@ ghost nameTypeOK bool
+//@ ghost nameTypeOf types.SessionType
+//@ contract checkNameType
+//@   requires[C09] name.Type != nil ==> shapeOK(name.Type) && envEntriesOK(dom(labelledTypesEnv), vals(labelledTypesEnv))
+//@   ensures C10.nameType: (result == nil) == (name.Type != nil && wfTy(name.Type, dom(labelledTypesEnv), vals(labelledTypesEnv)))
+//@   emits nameTypeOK = (result == nil)
+//@   emits nameTypeOf = name.Type
+//@   safety C09
+//@ contract (*NewForm).typecheckForm
+//@   callsite C10.annotationChecked process.declationOfIndependence#2: nameTypeOK && nameTypeOf == old(p.new_name_c.Type)
